@@ -107,6 +107,12 @@ func run(ctx context.Context, output io.Writer, input io.Reader, logError func(e
 		sb.WriteString(statements[len(statements)-1])
 	}
 
+	if err := scanner.Err(); err != nil {
+		// The input could not be read to the end (I/O error or an overlong line):
+		// what remains is incomplete, so report instead of compiling it.
+		return fmt.Errorf("read input: %w", err)
+	}
+
 	if stmt := sb.String(); len(parser.Scan(stmt)) > 0 {
 		sql, err := pql.Compile(letStatements.String() + stmt)
 		if err != nil {
